@@ -9,7 +9,10 @@ use std::sync::atomic::{AtomicU64, Ordering};
 use std::sync::Mutex;
 use std::time::Instant;
 
-pub const VERIF_ROOT: &str = "/verif";
+/// Root of the verification tree: /verif, or the directory ./check was started from (background snapshots).
+pub fn verif_root() -> String {
+    std::env::var("ZIPMC_VERIF_ROOT").unwrap_or_else(|_| "/verif".to_string())
+}
 
 // ---------------------------------------------------------------------------------------------
 // stderr handling: the crate under test prints "ZipWriter drop failed: ..." to stderr whenever a
@@ -395,7 +398,7 @@ pub struct Known {
 }
 
 pub fn load_known(prop: &str) -> Vec<Known> {
-    let path = format!("{VERIF_ROOT}/known_findings.json");
+    let path = format!("{}/known_findings.json", verif_root());
     let txt = match std::fs::read_to_string(&path) {
         Ok(t) => t,
         Err(_) => return vec![],
@@ -498,7 +501,7 @@ impl Ctx {
                 self.stats.evals
             ));
         }
-        let replay_dir = format!("{VERIF_ROOT}/replays/{}", self.prop);
+        let replay_dir = format!("{}/replays/{}", verif_root(), self.prop);
         let mut replay_paths = vec![];
         if !real.is_empty() {
             let _ = std::fs::create_dir_all(&replay_dir);
@@ -559,7 +562,7 @@ impl Ctx {
             "wall_s": (wall * 1000.0).round() / 1000.0,
             "violations": real.len(),
         });
-        let evdir = format!("{VERIF_ROOT}/evidence");
+        let evdir = format!("{}/evidence", verif_root());
         let _ = std::fs::create_dir_all(&evdir);
         let evpath = format!("{evdir}/{}.json", self.prop);
         if let Err(e) = std::fs::write(&evpath, serde_json::to_string_pretty(&ev).unwrap() + "\n") {
